@@ -14,6 +14,7 @@ ScenSet == CASE Family = "F1" -> F1
              [] Family = "F4" -> F4
              [] Family = "F5" -> F5
              [] Family = "F6" -> F6
+             [] Family = "F8" -> F8
              [] OTHER -> Multi
 (* at most one connection waits for the others (two waiting for each other is the application's deadlock) *)
 MCInit == IF Family = "Multi"
@@ -21,7 +22,7 @@ MCInit == IF Family = "Multi"
           ELSE \E S \in ScenSet : InitWith([c \in Conns |-> S])
 Spec == MCInit /\ [][Next]_vars /\ Fairness
 (* ghost/history variables do not influence behaviour: hide them from the fingerprint *)
-View == <<scen, wire, rbuf, cseg, peer, pc, cur, hpos, hfail, hc, out, disp, active>>
+View == <<scen, wire, rbuf, cseg, peer, pc, cur, hpos, hfail, hc, out, disp, active, lost>>
 (* C01: nothing on one connection depends on the others *)
 Independence == \A c \in Conns : /\ IsPrefix(out[c], Sem(scen[c]).out)
                                  /\ IsPrefix(disp[c], Sem(scen[c]).disp)
